@@ -21,12 +21,16 @@ Variable dict : list byte.
 (* the goal: the frame specification applied to what was consumed so far, followed by g *)
 Definition SpecGoal (p g : list byte) (res : list byte * list byte) : Prop :=
   frame_decode bdec skip dict (p ++ g) = Some res.
-(* [E] describes exactly what the specification still has to see after the consumed bytes [p] *)
-Definition Kc (p : list byte) (E : list byte -> list byte * list byte -> Prop) : Prop :=
-  (forall g res, E g res -> SpecGoal p g res) /\ (forall g res, SpecGoal p g res -> E g res).
+(* ... and the same with every checksum verified (skip flag off) *)
+Definition SpecGoalF (p g : list byte) (res : list byte * list byte) : Prop :=
+  frame_decode bdec false dict (p ++ g) = Some res.
+(* [E sk] describes what the specification (with skip flag [sk]) still has to see after the consumed
+   bytes [p]: enough to be accepted under the decoder's own skip flag, necessary for acceptance
+   with all checksums verified *)
+Definition Kc (p : list byte) (E : bool -> list byte -> list byte * list byte -> Prop) : Prop :=
+  (forall g res, E skip g res -> SpecGoal p g res) /\ (forall g res, SpecGoalF p g res -> E false g res).
 (* no continuation of [p ++ rem] is a valid frame (all checksums verified) *)
-Definition Bad (p rem : list byte) : Prop :=
-  skip = false -> forall R res, ~ SpecGoal p (rem ++ R) res.
+Definition Bad (p rem : list byte) : Prop := forall R res, ~ SpecGoalF p (rem ++ R) res.
 Definition Done (p O : list byte) : Prop := forall g, SpecGoal p g (O, g).
 (* the end of a frame: an LZ4 frame accepted by the specification, or a skippable frame *)
 Definition Fin (p O : list byte) : Prop :=
@@ -44,13 +48,13 @@ Lemma gbinv_binv d maxb a s : gbinv d maxb a a s <-> binv skip d maxb dict a s.
 Proof. unfold gbinv, binv. tauto. Qed.
 
 (* the specification resumed inside an uncompressed block: [data1] already received, [m] bytes to come *)
-Definition E_C d maxb (acc0 data1 : list byte) (m : Z) (g : list byte) (res : list byte * list byte) : Prop :=
+Definition E_C (sk : bool) d maxb (acc0 data1 : list byte) (m : Z) (g : list byte) (res : list byte * list byte) : Prop :=
   exists data2 r1, take (Z.to_nat m) g = Some (data2, r1) /\
-                   E_bcrc bdec skip d maxb dict acc0 (data1 ++ data2) (data1 ++ data2) r1 res.
+                   E_bcrc bdec sk d maxb dict acc0 (data1 ++ data2) (data1 ++ data2) r1 res.
 (* ... at the block checksum of an uncompressed block, [t] = the checksum bytes already staged *)
-Definition E_B d maxb (acc0 data t g : list byte) (res : list byte * list byte) : Prop :=
-  exists cb r2, take 4 (t ++ g) = Some (cb, r2) /\ (skip || (le_val cb =? xxh32 0 data)) = true /\
-                E_after bdec skip d maxb dict acc0 data r2 res.
+Definition E_B (sk : bool) d maxb (acc0 data t g : list byte) (res : list byte * list byte) : Prop :=
+  exists cb r2, take 4 (t ++ g) = Some (cb, r2) /\ (sk || (le_val cb =? xxh32 0 data)) = true /\
+                E_after bdec sk d maxb dict acc0 data r2 res.
 
 Definition in_skip (st : dstage) : bool :=
   match st with GetSFrameSize | StoreSFrameSize | SkipSkippable => true | _ => false end.
@@ -65,41 +69,41 @@ Inductive CInv (p O : list byte) (s : dstate) : Prop :=
       pre (d_header s) (d_tmpInSize s) = p -> bytes_ok p = true -> CInv p O s
   | C_init d maxb :
       d_stage s = Init -> O = [] -> binv skip d maxb dict [] (do_init s) ->
-      Kc p (E_header bdec skip d maxb dict []) -> CInv p O s
+      Kc p (fun sk => E_header bdec sk d maxb dict []) -> CInv p O s
   | C_h d maxb :
       d_stage s = GetBlockHeader -> binv skip d maxb dict O s ->
-      Kc p (E_header bdec skip d maxb dict O) -> CInv p O s
+      Kc p (fun sk => E_header bdec sk d maxb dict O) -> CInv p O s
   | C_sh d maxb t :
       d_stage s = StoreBlockHeader -> binv skip d maxb dict O s ->
       pre (d_tmpIn s) (d_tmpInSize s) = t -> bytes_ok t = true ->
-      Kc p (fun g => E_header bdec skip d maxb dict O (t ++ g)) -> CInv p O s
+      Kc p (fun sk g => E_header bdec sk d maxb dict O (t ++ g)) -> CInv p O s
   | C_c d maxb acc0 data1 :
       d_stage s = CopyDirect -> O = acc0 ++ data1 -> binv skip d maxb dict O s ->
       0 <= d_tmpInTarget s -> zlen data1 + d_tmpInTarget s <= maxb ->
       (f_bcrc d = true -> skip = false -> d_bxxh s = data1) ->
-      Kc p (E_C d maxb acc0 data1 (d_tmpInTarget s)) -> CInv p O s
+      Kc p (fun sk => E_C sk d maxb acc0 data1 (d_tmpInTarget s)) -> CInv p O s
   | C_b d maxb acc0 data t :
       d_stage s = GetBlockChecksum -> O = acc0 ++ data -> binv skip d maxb dict O s -> f_bcrc d = true ->
       zlen data <= maxb -> (skip = false -> d_bxxh s = data) ->
       pre (d_header s) (d_tmpInSize s) = t -> bytes_ok t = true ->
-      Kc p (E_B d maxb acc0 data t) -> CInv p O s
+      Kc p (fun sk => E_B sk d maxb acc0 data t) -> CInv p O s
   | C_g d maxb n :
       d_stage s = GetCBlock -> binv skip d maxb dict O s -> d_tmpInTarget s = n + crc4 (f_bcrc d) -> 0 <= n <= maxb ->
-      Kc p (X_comp bdec skip d maxb dict O n) -> CInv p O s
+      Kc p (fun sk => X_comp bdec sk d maxb dict O n) -> CInv p O s
   | C_s d maxb n t :
       d_stage s = StoreCBlock -> binv skip d maxb dict O s -> d_tmpInTarget s = n + crc4 (f_bcrc d) -> 0 <= n <= maxb ->
       pre (d_tmpIn s) (d_tmpInSize s) = t -> bytes_ok t = true ->
-      Kc p (fun g => X_comp bdec skip d maxb dict O n (t ++ g)) -> CInv p O s
+      Kc p (fun sk g => X_comp bdec sk d maxb dict O n (t ++ g)) -> CInv p O s
   | C_f d maxb acc0 :
       d_stage s = FlushOut -> O = acc0 ++ ztake (d_tmpOutStart s) (d_tmpOut s) ->
       gbinv d maxb O (acc0 ++ d_tmpOut s) s -> zlen (d_tmpOut s) <= maxb ->
-      Kc p (E_header bdec skip d maxb dict (acc0 ++ d_tmpOut s)) -> CInv p O s
+      Kc p (fun sk => E_header bdec sk d maxb dict (acc0 ++ d_tmpOut s)) -> CInv p O s
   | C_x d maxb :
-      d_stage s = GetSuffix -> binv skip d maxb dict O s -> Kc p (E_suffix skip d O) -> CInv p O s
+      d_stage s = GetSuffix -> binv skip d maxb dict O s -> Kc p (fun sk => E_suffix sk d O) -> CInv p O s
   | C_xs d maxb t :
       d_stage s = StoreSuffix -> binv skip d maxb dict O s -> f_ccrc d = true -> d_remaining s = 0 ->
       pre (d_tmpIn s) (d_tmpInSize s) = t -> bytes_ok t = true ->
-      Kc p (fun g => E_suffix skip d O (t ++ g)) -> CInv p O s
+      Kc p (fun sk g => E_suffix sk d O (t ++ g)) -> CInv p O s
   | C_skip :
       in_skip (d_stage s) = true -> O = [] -> 4 <= zlen p -> Z.land (rd32 p) SKIP_MASK = FD_MAGIC_SKIPPABLE_START -> CInv p O s.
 
@@ -129,7 +133,7 @@ Lemma after_stepr p O l l' n r :
 Proof.
   intros Hn Hb Hs Ho. unfold after, stepr. destruct (bytes_ok_split n _ Hb) as [Hb1 _].
   destruct (snd r).
-  3:{ intros A Hv Hsk R res G. apply (A Hv Hsk R res). unfold SpecGoal in *. rewrite Hs.
+  3:{ intros A Hv R res G. apply (A Hv R res). unfold SpecGoalF in *. rewrite Hs.
       rewrite <- app_assoc, (app_assoc (ztake n (l_src l))), ztake_zdrop_app. exact G. }
   - intros (y & A & B & C). exists (ztake n (l_src l)), y. rewrite A, B, Hs, Ho. rewrite ztake_zdrop_app. auto.
   - intros (Hh & y & A & B & C). split; [exact Hh|]. exists (ztake n (l_src l)), y. rewrite A, B, Hs, Ho. rewrite ztake_zdrop_app. auto.
@@ -139,20 +143,24 @@ Qed.
 Lemma stepr_with_s p O l s r : stepr p O (with_s l s) r -> stepr p O l r.
 Proof. exact (fun H => H). Qed.
 
-Lemma Kc_shift p x (E E' : list byte -> list byte * list byte -> Prop) :
-  Kc p E -> (forall g res, E' g res <-> E (x ++ g) res) -> Kc (p ++ x) E'.
+Lemma Kc_shift p x (E E' : bool -> list byte -> list byte * list byte -> Prop) :
+  Kc p E -> (forall sk g res, E' sk g res <-> E sk (x ++ g) res) -> Kc (p ++ x) E'.
 Proof.
   intros [K1 K2] H. split; intros g res He.
   - unfold SpecGoal. rewrite <- app_assoc. apply K1. apply H. exact He.
-  - apply H. apply K2. unfold SpecGoal in *. rewrite <- app_assoc in He. exact He.
+  - apply H. apply K2. unfold SpecGoalF in *. rewrite <- app_assoc in He. exact He.
 Qed.
-Lemma Kc_weaken p (E E' : list byte -> list byte * list byte -> Prop) :
-  Kc p E -> (forall g res, E' g res <-> E g res) -> Kc p E'.
+Lemma Kc_weaken p (E E' : bool -> list byte -> list byte * list byte -> Prop) :
+  Kc p E -> (forall sk g res, E' sk g res <-> E sk g res) -> Kc p E'.
 Proof. intros [K1 K2] H. split; intros g res e; [apply K1, H, e|apply H, K2, e]. Qed.
+(* the same when the two directions are not uniform in the skip flag *)
+Lemma Kc_weaken2 p (E E' : bool -> list byte -> list byte * list byte -> Prop) :
+  Kc p E -> (forall g res, E' skip g res -> E skip g res) -> (forall g res, E false g res -> E' false g res) -> Kc p E'.
+Proof. intros [K1 K2] H1 H2. split; intros g res e; [apply K1, H1, e|apply H2, K2, e]. Qed.
 (* an error is justified: the specification rejects every continuation *)
-Lemma Kc_bad p (E : list byte -> list byte * list byte -> Prop) rem :
-  Kc p E -> (skip = false -> forall R res, ~ E (rem ++ R) res) -> Bad p rem.
-Proof. intros [_ K2] H Hsk R res G. exact (H Hsk R res (K2 _ _ G)). Qed.
+Lemma Kc_bad p (E : bool -> list byte -> list byte * list byte -> Prop) rem :
+  Kc p E -> (forall R res, ~ E false (rem ++ R) res) -> Bad p rem.
+Proof. intros [_ K2] H R res G. exact (H R res (K2 _ _ G)). Qed.
 
 (* ---- the specification's block loop, inverted ---- *)
 Lemma take_full (a g x r : list byte) n : zlen a = Z.of_nat n -> take n (a ++ g) = Some (x, r) -> x = a /\ r = g.
@@ -168,13 +176,13 @@ Proof.
   inversion H; subst. destruct (IH _ _ _ _ E) as (b' & -> & T). exists b'. auto.
 Qed.
 
-Lemma L_inv d maxb acc bs szb r res :
-  take 4 bs = Some (szb, r) -> E_header bdec skip d maxb dict acc bs res ->
-  (le_val szb = 0 /\ E_suffix skip d acc r res) \/
+Lemma L_inv (sk : bool) d maxb acc bs szb r res :
+  take 4 bs = Some (szb, r) -> E_header bdec sk d maxb dict acc bs res ->
+  (le_val szb = 0 /\ E_suffix sk d acc r res) \/
   (le_val szb <> 0 /\ le_val szb mod 2147483648 <= maxb /\
    exists data r1 c, take (Z.to_nat (le_val szb mod 2147483648)) r = Some (data, r1) /\
                      (if 2147483648 <=? le_val szb then Some data else bdec (spec_hist d dict acc) data) = Some c /\
-                     E_bcrc bdec skip d maxb dict acc data c r1 res).
+                     E_bcrc bdec sk d maxb dict acc data c r1 res).
 Proof.
   intros T (F & HF). destruct F as [|F]; [discriminate HF|]. cbn [blocks] in HF. rewrite T in HF.
   destruct (le_val szb =? 0) eqn:W.
@@ -188,7 +196,7 @@ Proof.
       - inversion H; auto. }
     destruct (f_ccrc d).
     + destruct (take 4 r) as [[cb r1]|]; [|discriminate HF].
-      destruct (skip || (le_val cb =? xxh32 0 acc)) eqn:C; [|discriminate HF].
+      destruct (sk || (le_val cb =? xxh32 0 acc)) eqn:C; [|discriminate HF].
       exists cb, r1. split; [reflexivity|]. split; [exact C|]. apply G. exact HF.
     + apply G. exact HF.
   - right. split; [apply Z.eqb_neq; exact W|].
@@ -199,17 +207,17 @@ Proof.
        (let hist := if f_indep d then dict else lastn 65536 (dict ++ acc) in
         let content := if 2147483648 <=? le_val szb then Some data else bdec hist data in
         match content with
-        | Some c => if maxb <? Z.of_nat (length c) then None else blocks bdec skip F d maxb dict (acc ++ c) rest
+        | Some c => if maxb <? Z.of_nat (length c) then None else blocks bdec sk F d maxb dict (acc ++ c) rest
         | None => None end) = Some res ->
        exists c, (if 2147483648 <=? le_val szb then Some data else bdec (spec_hist d dict acc) data) = Some c /\
-                 E_after bdec skip d maxb dict acc c rest res).
+                 E_after bdec sk d maxb dict acc c rest res).
     { intros rest H. cbv zeta in H. fold (spec_hist d dict acc) in H.
       destruct (if 2147483648 <=? le_val szb then Some data else bdec (spec_hist d dict acc) data) as [c|]; [|discriminate H].
       destruct (maxb <? Z.of_nat (length c)) eqn:EL; [discriminate H|]. apply Z.ltb_ge in EL.
       exists c. split; [reflexivity|]. split; [exact EL|]. exists F. exact H. }
     unfold E_bcrc. destruct (f_bcrc d).
     + destruct (take 4 r1) as [[cb r2]|]; [|discriminate HF].
-      destruct (skip || (le_val cb =? xxh32 0 data)) eqn:C; [|discriminate HF].
+      destruct (sk || (le_val cb =? xxh32 0 data)) eqn:C; [|discriminate HF].
       destruct (G r2 HF) as (c & C1 & C2). exists c. split; [reflexivity|]. split; [exact C1|].
       exists cb, r2. auto.
     + destruct (G r1 HF) as (c & C1 & C2). exists c. auto.
@@ -220,7 +228,7 @@ Ltac binv_same B := (eapply binv_eq; [| | | | | |exact B]; reflexivity).
 (* ---- "decode block header": [sel] = the 4 header bytes, already consumed ---- *)
 Lemma u_blockHeader d maxb pn O l sel :
   binv skip d maxb dict O (l_s l) -> bytes_ok sel = true -> zlen sel = 4 ->
-  Kc pn (fun g => E_header bdec skip d maxb dict O (sel ++ g)) ->
+  Kc pn (fun sk g => E_header bdec sk d maxb dict O (sel ++ g)) ->
   after pn O l (do_blockHeader l sel).
 Proof.
   intros B Hb1 Hsel HK. unfold after.
@@ -236,13 +244,13 @@ Proof.
   destruct (le_val sel =? 0) eqn:E0.
   { apply Z.eqb_eq in E0. ss. exists []. rewrite !app_nil_r. repeat split; auto.
     eapply C_x with (d := d) (maxb := maxb); [reflexivity|binv_same Bk|].
-    eapply Kc_weaken; [exact HK|]. intros g res. cbv beta. split; intro E.
+    eapply Kc_weaken; [exact HK|]. intros sk g res. cbv beta. split; intro E.
     - eapply L_end; eauto.
-    - destruct (L_inv _ _ _ _ _ _ _ (T g) E) as [[_ X]|[X _]]; [exact X|contradiction]. }
+    - destruct (L_inv _ _ _ _ _ _ _ _ (T g) E) as [[_ X]|[X _]]; [exact X|contradiction]. }
   apply Z.eqb_neq in E0. rewrite B2, TB2.
   destruct (maxb <? le_val sel mod 2147483648) eqn:EM.
-  { cbn [fst snd]. intros _. apply (Kc_bad _ _ _ HK). intros _ R res E. cbv beta in E. apply Z.ltb_lt in EM.
-    destruct (L_inv _ _ _ _ _ _ _ (T _) E) as [[X _]|(_ & X & _)]; [contradiction|lia]. }
+  { cbn [fst snd]. intros _. apply (Kc_bad _ _ _ HK). intros R res E. cbv beta in E. apply Z.ltb_lt in EM.
+    destruct (L_inv _ _ _ _ _ _ _ _ (T _) E) as [[X _]|(_ & X & _)]; [contradiction|lia]. }
   apply Z.ltb_ge in EM.
   assert (Hn0 : 0 <= le_val sel mod 2147483648) by (apply Z.mod_pos_bound; lia).
   unfold FD_BLOCKUNCOMPRESSED_FLAG. rewrite TB1. rewrite negb_involutive.
@@ -260,10 +268,10 @@ Proof.
       - unfold binv. rewrite G1, G2, G3, G4, G5, G6. repeat split; auto.
       - lia.
       - rewrite G8, zlen_nil. lia.
-      - rewrite G8. eapply Kc_weaken; [exact HK|]. intros g res. cbv beta. split.
+      - rewrite G8. eapply Kc_weaken; [exact HK|]. intros sk g res. cbv beta. split.
         + intros (data & r1 & T1 & E).
-          eapply (L_block bdec skip d maxb dict O (sel ++ g) sel g res true data r1 data); eauto.
-        + intro E. destruct (L_inv _ _ _ _ _ _ _ (T g) E) as [[X _]|(_ & _ & data & r1 & c & T1 & C & E1)]; [contradiction|].
+          eapply (L_block bdec sk d maxb dict O (sel ++ g) sel g res true data r1 data); eauto.
+        + intro E. destruct (L_inv _ _ _ _ _ _ _ _ (T g) E) as [[X _]|(_ & _ & data & r1 & c & T1 & C & E1)]; [contradiction|].
           rewrite ER in C. inversion C; subst c. exists data, r1. split; [exact T1|exact E1]. }
     exists []. rewrite !app_nil_r.
     destruct (negb (f_bcrc d)) eqn:EB; ss; (split; [reflexivity|]; split; [reflexivity|]); apply G; ss; auto.
@@ -274,10 +282,10 @@ Proof.
     rewrite Hcrc.
     assert (G : CInv pn O (set_stage (set_tmpInTarget (l_s l) (n + crc4 (f_bcrc d))) GetCBlock)).
     { eapply C_g with (d := d) (maxb := maxb) (n := n); [reflexivity|binv_same Bk|reflexivity|lia|].
-      eapply Kc_weaken; [exact HK|]. intros g res. cbv beta. split.
+      eapply Kc_weaken; [exact HK|]. intros sk g res. cbv beta. split.
       - intros (data & r1 & c & T1 & C & E).
-        eapply (L_block bdec skip d maxb dict O (sel ++ g) sel g res false data r1 c); eauto.
-      - intro E. destruct (L_inv _ _ _ _ _ _ _ (T g) E) as [[X _]|(_ & _ & data & r1 & c & T1 & C & E1)]; [contradiction|].
+        eapply (L_block bdec sk d maxb dict O (sel ++ g) sel g res false data r1 c); eauto.
+      - intro E. destruct (L_inv _ _ _ _ _ _ _ _ (T g) E) as [[X _]|(_ & _ & data & r1 & c & T1 & C & E1)]; [contradiction|].
         rewrite ER in C. exists data, r1, c. auto. }
     assert (Hpos : 0 < FD_BHSize + n + crc4 (f_bcrc d)) by (unfold crc4, FD_BHSize; destruct (f_bcrc d); lia).
     destruct ((l_cap l =? 0) || (zlen (l_src l) =? 0)); ss.
@@ -307,7 +315,7 @@ Qed.
 Lemma c_storeBlockHeader d maxb p O l t :
   d_stage (l_s l) = StoreBlockHeader -> binv skip d maxb dict O (l_s l) ->
   pre (d_tmpIn (l_s l)) (d_tmpInSize (l_s l)) = t -> bytes_ok t = true -> 0 <= d_tmpInSize (l_s l) < FD_BHSize ->
-  Kc p (fun g => E_header bdec skip d maxb dict O (t ++ g)) -> bytes_ok (l_src l) = true ->
+  Kc p (fun sk g => E_header bdec sk d maxb dict O (t ++ g)) -> bytes_ok (l_src l) = true ->
   stepr p O l (do_storeBlockHeader l).
 Proof.
   intros Hst B Ht Hbt Hs HK Hb. unfold do_storeBlockHeader, tmpin_write. ss. unfold FD_BHSize in *.
@@ -319,8 +327,8 @@ Proof.
   destruct (bytes_ok_split n _ Hb) as [Hbp Hbr]. fold piece in Hbp.
   destruct (stage_facts _ _ piece n t Ht ltac:(lia) Hpl) as (W1 & W2 & W3). rewrite W1.
   assert (Hbtp : bytes_ok (t ++ piece) = true) by (rewrite bytes_ok_app, Hbt, Hbp; reflexivity).
-  assert (HK' : Kc (p ++ piece) (fun g => E_header bdec skip d maxb dict O ((t ++ piece) ++ g))).
-  { eapply Kc_shift; [exact HK|]. intros g res. cbv beta. rewrite <- app_assoc. tauto. }
+  assert (HK' : Kc (p ++ piece) (fun sk g => E_header bdec sk d maxb dict O ((t ++ piece) ++ g))).
+  { eapply Kc_shift; [exact HK|]. intros sk g res. cbv beta. rewrite <- app_assoc. tauto. }
   destruct (d_tmpInSize (l_s l) + n <? 4) eqn:E.
   - apply Z.ltb_lt in E. apply stepr_stop_stage with (x := piece);
       [lia | ss; unfold piece; rewrite ztake_zdrop_app; reflexivity | reflexivity | exact Hbp |].
@@ -335,7 +343,7 @@ Proof.
 Qed.
 
 Lemma c_getBlockHeader d maxb p O l :
-  binv skip d maxb dict O (l_s l) -> Kc p (E_header bdec skip d maxb dict O) -> bytes_ok (l_src l) = true ->
+  binv skip d maxb dict O (l_s l) -> Kc p (fun sk => E_header bdec sk d maxb dict O) -> bytes_ok (l_src l) = true ->
   stepr p O l (do_getBlockHeader l).
 Proof.
   intros B HK Hb. unfold do_getBlockHeader. unfold FD_BHSize at 1 2 3.
@@ -347,7 +355,7 @@ Proof.
     destruct (bytes_ok_split 4 _ Hb) as [Hb1 _]. fold sel in Hb1.
     eapply (after_stepr p O l (adv l 4) 4); [lia|exact Hb|reflexivity|reflexivity|]. fold sel.
     apply (u_blockHeader d maxb); [exact B|exact Hb1|exact Hsel|].
-    eapply Kc_shift; [exact HK|]. intros g res. cbv beta. tauto.
+    eapply Kc_shift; [exact HK|]. intros sk g res. cbv beta. tauto.
   - apply Z.leb_gt in E.
     apply stepr_with_s with (s := set_stage (set_tmpInSize (l_s l) 0) StoreBlockHeader).
     apply (c_storeBlockHeader d maxb p O _ []); [reflexivity|binv_same B|reflexivity|reflexivity|ss; unfold FD_BHSize; lia|exact HK|exact Hb].
@@ -358,9 +366,9 @@ Lemma take_app_more : forall (a g : list byte) k b r,
   take k g = Some (b, r) -> take (length a + k) (a ++ g) = Some (a ++ b, r).
 Proof. induction a as [|x a IH]; intros g k b r H; [exact H|]. simpl. rewrite (IH _ _ _ _ H). reflexivity. Qed.
 
-Lemma EC_step d maxb acc0 data1 m piece k g res :
+Lemma EC_step sk d maxb acc0 data1 m piece k g res :
   zlen piece = k -> 0 <= k <= m ->
-  E_C d maxb acc0 (data1 ++ piece) (m - k) g res <-> E_C d maxb acc0 data1 m (piece ++ g) res.
+  E_C sk d maxb acc0 (data1 ++ piece) (m - k) g res <-> E_C sk d maxb acc0 data1 m (piece ++ g) res.
 Proof.
   intros Hp Hk.
   assert (Hm : Z.to_nat m = (length piece + Z.to_nat (m - k))%nat) by (unfold zlen in Hp; lia).
@@ -371,17 +379,17 @@ Proof.
   - intros (data2 & r1 & T & E). rewrite Hm in T. destruct (take_app_inv _ _ _ _ _ T) as (b' & -> & T').
     exists b', r1. split; [exact T'|]. rewrite <- app_assoc. exact E.
 Qed.
-Lemma EC_done_nocrc d maxb acc0 data1 g res :
+Lemma EC_done_nocrc sk d maxb acc0 data1 g res :
   f_bcrc d = false -> zlen data1 <= maxb ->
-  E_header bdec skip d maxb dict (acc0 ++ data1) g res <-> E_C d maxb acc0 data1 0 g res.
+  E_header bdec sk d maxb dict (acc0 ++ data1) g res <-> E_C sk d maxb acc0 data1 0 g res.
 Proof.
   intros Hb Hl. split.
   - intro E. exists [], g. split; [reflexivity|]. rewrite app_nil_r. unfold E_bcrc. rewrite Hb. split; assumption.
   - intros (data2 & r1 & T & E). change (Z.to_nat 0) with 0%nat in T. simpl in T. inversion T; subst.
     rewrite app_nil_r in E. unfold E_bcrc in E. rewrite Hb in E. apply E.
 Qed.
-Lemma EC_done_crc d maxb acc0 data1 g res :
-  f_bcrc d = true -> E_B d maxb acc0 data1 [] g res <-> E_C d maxb acc0 data1 0 g res.
+Lemma EC_done_crc sk d maxb acc0 data1 g res :
+  f_bcrc d = true -> E_B sk d maxb acc0 data1 [] g res <-> E_C sk d maxb acc0 data1 0 g res.
 Proof.
   intros Hb. split.
   - intros (cb & r2 & T & C & E). exists [], g. split; [reflexivity|]. rewrite app_nil_r. unfold E_bcrc. rewrite Hb.
@@ -394,7 +402,7 @@ Lemma c_copyDirect o d maxb p acc0 data1 l :
   d_stage (l_s l) = CopyDirect -> binv skip d maxb dict (acc0 ++ data1) (l_s l) ->
   0 <= d_tmpInTarget (l_s l) -> zlen data1 + d_tmpInTarget (l_s l) <= maxb -> 0 <= l_cap l ->
   (f_bcrc d = true -> skip = false -> d_bxxh (l_s l) = data1) ->
-  Kc p (E_C d maxb acc0 data1 (d_tmpInTarget (l_s l))) -> bytes_ok (l_src l) = true ->
+  Kc p (fun sk => E_C sk d maxb acc0 data1 (d_tmpInTarget (l_s l))) -> bytes_ok (l_src l) = true ->
   stepr p (acc0 ++ data1) l (do_copyDirect o l).
 Proof.
   intros Hst B Ht Hm Hc Hx HK Hb. unfold do_copyDirect.
@@ -423,8 +431,8 @@ Proof.
     assert (Hpl : zlen piece = k) by (unfold piece; rewrite zlen_ztake; lia).
     destruct (bytes_ok_split k _ Hb) as [Hbp _]. fold piece in Hbp.
     assert (Hsrc : l_src l = piece ++ l_src l2) by (rewrite S2; unfold piece; rewrite ztake_zdrop_app; reflexivity).
-    assert (HKs : Kc (p ++ piece) (E_C d maxb acc0 (data1 ++ piece) (m - k))).
-    { eapply Kc_shift; [exact HK|]. intros g res. apply EC_step; auto. }
+    assert (HKs : Kc (p ++ piece) (fun sk => E_C sk d maxb acc0 (data1 ++ piece) (m - k))).
+    { eapply Kc_shift; [exact HK|]. intros sk g res. apply EC_step; auto. }
     rewrite Tg, FB, F1. unfold stepr.
     destruct (k =? m) eqn:E.
     - apply Z.eqb_eq in E. replace (m - k) with 0 in HKs by lia.
@@ -433,10 +441,10 @@ Proof.
         eapply C_b with (d := d) (maxb := maxb) (acc0 := acc0) (data := data1 ++ piece) (t := []);
           [reflexivity | rewrite app_assoc; reflexivity | binv_same Bn | exact EB | rewrite zlen_app; lia | | reflexivity | reflexivity |].
         * intro K. ss. apply X2; auto.
-        * eapply Kc_weaken; [exact HKs|]. intros g res. apply EC_done_crc; auto.
+        * eapply Kc_weaken; [exact HKs|]. intros sk g res. apply EC_done_crc; auto.
       + exists piece, piece. ss. split; [exact Hsrc|]. split; [exact S3|]. split; [exact Hbp|].
         eapply C_h with (d := d) (maxb := maxb); [reflexivity | binv_same Bn |].
-        eapply Kc_weaken; [exact HKs|]. intros g res. rewrite <- app_assoc.
+        eapply Kc_weaken; [exact HKs|]. intros sk g res. rewrite <- app_assoc.
         apply EC_done_nocrc; auto. rewrite zlen_app; lia.
     - apply Z.eqb_neq in E. cbn [fst snd].
       assert (Hpos : 0 < m - k + bcsize (set_tmpInTarget s1 (m - k)) + FD_BHSize).
@@ -473,7 +481,7 @@ Qed.
 Lemma u_bcc d maxb pn acc0 data l crc :
   binv skip d maxb dict (acc0 ++ data) (l_s l) -> zlen data <= maxb ->
   (skip = false -> d_bxxh (l_s l) = data) -> zlen crc = 4 -> bytes_ok crc = true ->
-  Kc pn (fun g => E_B d maxb acc0 data crc g) ->
+  Kc pn (fun sk g => E_B sk d maxb acc0 data crc g) ->
   after pn (acc0 ++ data) l (do_blockChecksum_check l crc).
 Proof.
   intros B Hd Hx Hcl Hbc HK. unfold do_blockChecksum_check, after.
@@ -481,12 +489,12 @@ Proof.
   rewrite Hrd. assert (Bk := B). destruct B as (B1 & B2 & B3 & B4 & B5 & B6 & B7). rewrite B3.
   assert (Hc4 : zlen crc = Z.of_nat 4) by (rewrite Hcl; reflexivity).
   destruct (negb skip && negb (le_val crc =? xxh32 0 (d_bxxh (l_s l)))) eqn:EC; cbn [fst snd].
-  { intros _. apply (Kc_bad _ _ _ HK). intros Hsk R res (cb & r2 & T & C & _).
-    destruct (take_full _ _ _ _ _ Hc4 T) as [-> _]. rewrite Hsk in *. cbn [negb andb orb] in *.
+  { intros _. apply (Kc_bad _ _ _ HK). intros R res (cb & r2 & T & C & _).
+    destruct (take_full _ _ _ _ _ Hc4 T) as [-> _]. destruct skip; [discriminate EC|]. cbn [negb andb orb] in *.
     rewrite (Hx eq_refl) in EC. rewrite C in EC. discriminate EC. }
   exists []. ss. rewrite !app_nil_r. split; [reflexivity|]. split; [reflexivity|].
   eapply C_h with (d := d) (maxb := maxb); [reflexivity | binv_same Bk |].
-  eapply Kc_weaken; [exact HK|]. intros g res. cbv beta. split.
+  eapply Kc_weaken2; [exact HK| |]; intros g res; cbv beta.
   - intro E. exists crc, g. split.
     + replace 4%nat with (length crc) by (unfold zlen in Hcl; lia). apply take_app.
     + split.
@@ -500,7 +508,7 @@ Lemma c_getBlockChecksum d maxb p acc0 data t l :
   d_stage (l_s l) = GetBlockChecksum -> binv skip d maxb dict (acc0 ++ data) (l_s l) -> zlen data <= maxb ->
   (skip = false -> d_bxxh (l_s l) = data) -> f_bcrc d = true ->
   pre (d_header (l_s l)) (d_tmpInSize (l_s l)) = t -> bytes_ok t = true -> 0 <= d_tmpInSize (l_s l) < 4 ->
-  Kc p (E_B d maxb acc0 data t) -> bytes_ok (l_src l) = true ->
+  Kc p (fun sk => E_B sk d maxb acc0 data t) -> bytes_ok (l_src l) = true ->
   stepr p (acc0 ++ data) l (do_getBlockChecksum l).
 Proof.
   intros Hst B Hd Hx EB Ht Hbt Hs HK Hb. unfold do_getBlockChecksum.
@@ -513,7 +521,7 @@ Proof.
     destruct (bytes_ok_split 4 _ Hb) as [Hb1 _]. fold crc in Hb1.
     eapply (after_stepr p (acc0 ++ data) l (adv l 4) 4); [lia|exact Hb|reflexivity|reflexivity|]. fold crc.
     apply (u_bcc d maxb); [exact B|exact Hd|exact Hx|exact Hcl|exact Hb1|].
-    eapply Kc_shift; [exact HK|]. intros g res. cbv beta. tauto.
+    eapply Kc_shift; [exact HK|]. intros sk g res. cbv beta. tauto.
   - clear E. unfold hdr_write. ss.
     set (n := Z.min (4 - d_tmpInSize (l_s l)) (zlen (l_src l))) in *.
     assert (Hn : 0 <= n <= zlen (l_src l) /\ n <= 4 - d_tmpInSize (l_s l)) by (unfold n; lia).
@@ -522,8 +530,8 @@ Proof.
     destruct (bytes_ok_split n _ Hb) as [Hbp Hbr]. fold piece in Hbp.
     destruct (stage_facts _ _ piece n t Ht ltac:(lia) Hpl) as (W1 & W2 & W3). rewrite W1.
     assert (Hbtp : bytes_ok (t ++ piece) = true) by (rewrite bytes_ok_app, Hbt, Hbp; reflexivity).
-    assert (HK' : Kc (p ++ piece) (E_B d maxb acc0 data (t ++ piece))).
-    { eapply Kc_shift; [exact HK|]. intros g res. unfold E_B. rewrite <- app_assoc. tauto. }
+    assert (HK' : Kc (p ++ piece) (fun sk => E_B sk d maxb acc0 data (t ++ piece))).
+    { eapply Kc_shift; [exact HK|]. intros sk g res. unfold E_B. rewrite <- app_assoc. tauto. }
     destruct (d_tmpInSize (l_s l) + n <? 4) eqn:E.
     + apply Z.ltb_lt in E. apply stepr_stop_stage with (x := piece);
         [lia | ss; unfold piece; rewrite ztake_zdrop_app; reflexivity | reflexivity | exact Hbp |].
@@ -582,7 +590,7 @@ Lemma u_flushOut o d maxb pn O acc0 l :
   d_stage (l_s l) = FlushOut -> O = acc0 ++ ztake (d_tmpOutStart (l_s l)) (d_tmpOut (l_s l)) ->
   gbinv d maxb O (acc0 ++ d_tmpOut (l_s l)) (l_s l) ->
   0 <= d_tmpOutStart (l_s l) <= zlen (d_tmpOut (l_s l)) -> zlen (d_tmpOut (l_s l)) <= maxb -> 0 <= l_cap l ->
-  Kc pn (E_header bdec skip d maxb dict (acc0 ++ d_tmpOut (l_s l))) ->
+  Kc pn (fun sk => E_header bdec sk d maxb dict (acc0 ++ d_tmpOut (l_s l))) ->
   after pn O l (do_flushOut o l).
 Proof.
   intros Hst HO B Hs Hm Hc HK. unfold do_flushOut.
@@ -642,14 +650,14 @@ Lemma c_flushOut o d maxb p O acc0 l :
   d_stage (l_s l) = FlushOut -> O = acc0 ++ ztake (d_tmpOutStart (l_s l)) (d_tmpOut (l_s l)) ->
   gbinv d maxb O (acc0 ++ d_tmpOut (l_s l)) (l_s l) ->
   0 <= d_tmpOutStart (l_s l) <= zlen (d_tmpOut (l_s l)) -> zlen (d_tmpOut (l_s l)) <= maxb -> 0 <= l_cap l ->
-  Kc p (E_header bdec skip d maxb dict (acc0 ++ d_tmpOut (l_s l))) -> bytes_ok (l_src l) = true ->
+  Kc p (fun sk => E_header bdec sk d maxb dict (acc0 ++ d_tmpOut (l_s l))) -> bytes_ok (l_src l) = true ->
   stepr p O l (do_flushOut o l).
 Proof. intros. apply after_stepr0; [assumption|]. eapply u_flushOut; eauto. Qed.
 
 Lemma u_cblock o d maxb pn O l sel n :
   binv skip d maxb dict O (l_s l) -> bytes_ok sel = true ->
   d_tmpInTarget (l_s l) = n + crc4 (f_bcrc d) -> 0 <= n <= maxb -> zlen sel = n + crc4 (f_bcrc d) -> 0 <= l_cap l ->
-  Kc pn (fun g => X_comp bdec skip d maxb dict O n (sel ++ g)) ->
+  Kc pn (fun sk g => X_comp bdec sk d maxb dict O n (sel ++ g)) ->
   after pn O l (do_cblock bdec o l sel).
 Proof.
   intros B Hbs Ht Hn Hsl Hc HK. unfold do_cblock.
@@ -671,9 +679,9 @@ Proof.
             rd32 (zdrop (d_tmpInTarget (set_tmpInTarget (l_s l) (d_tmpInTarget (l_s l) - 4))) sel) =?
             xxh32 0 (ztake (d_tmpInTarget (set_tmpInTarget (l_s l) (d_tmpInTarget (l_s l) - 4))) sel))) = (s0, crcok) ->
      d_tmpInTarget s0 = n /\ binv skip d maxb dict O s0 /\
-     (crcok = true -> forall c rest res, E_after bdec skip d maxb dict O c rest res <->
-                      E_bcrc bdec skip d maxb dict O data c (zdrop n sel ++ rest) res) /\
-     (crcok = false -> skip = false -> forall c rest res, ~ E_bcrc bdec skip d maxb dict O data c (zdrop n sel ++ rest) res)).
+     (crcok = true -> forall sk c rest res, E_after bdec sk d maxb dict O c rest res <->
+                      E_bcrc bdec sk d maxb dict O data c (zdrop n sel ++ rest) res) /\
+     (crcok = false -> forall c rest res, ~ E_bcrc bdec false d maxb dict O data c (zdrop n sel ++ rest) res)).
   { intros s0 crcok H. destruct (f_bcrc d) eqn:EB; cbn [negb] in H; injection H as <- <-.
     - ss. unfold crc4 in *. rewrite Ht. split; [lia|]. split; [binv_same Bk|].
       replace (n + 4 - 4) with n by lia.
@@ -683,26 +691,26 @@ Proof.
       destruct (bytes_ok_split n _ Hbs) as [_ Hbc]. fold cb in Hbc.
       assert (Hrd : rd32 cb = le_val cb) by (rewrite rd32_le_val by exact Hbc; rewrite ztake4_self by exact Hcb; reflexivity).
       rewrite Hrd. fold data. split.
-      + intros C c rest res. unfold E_bcrc. rewrite EB. split.
+      + intros C sk c rest res. unfold E_bcrc. rewrite EB. split.
         * intro E. exists cb, rest. split.
           -- replace 4%nat with (length cb) by (unfold zlen in Hcb; lia). apply take_app.
           -- split; [|exact E]. rewrite C. apply orb_true_r.
         * intros (cb1 & r2 & T & _ & E). destruct (take_full _ _ _ _ _ Hcb' T) as [_ ->]. exact E.
-      + intros C Hsk c rest res. unfold E_bcrc. rewrite EB. intros (cb1 & r2 & T & K & _).
-        destruct (take_full _ _ _ _ _ Hcb' T) as [-> _]. rewrite Hsk, C in K. discriminate K.
+      + intros C c rest res. unfold E_bcrc. rewrite EB. intros (cb1 & r2 & T & K & _).
+        destruct (take_full _ _ _ _ _ Hcb' T) as [-> _]. cbn [orb] in K. rewrite C in K. discriminate K.
     - unfold crc4 in *. split; [lia|]. split; [exact Bk|].
       assert (Z0 : zdrop n sel = []) by (unfold zdrop; apply skipn_all2; unfold zlen in Hsl; lia).
       rewrite Z0. split; [|discriminate].
-      intros _ c rest res. unfold E_bcrc. rewrite EB. cbn [app]. tauto. }
+      intros _ sk c rest res. unfold E_bcrc. rewrite EB. cbn [app]. tauto. }
   match goal with |- context [let '(_, _) := ?x in _] => destruct x as [s0 crcok] eqn:EX end.
   destruct (CRC s0 crcok eq_refl) as (T0 & B0 & C0 & C0f). clear CRC EX.
   (* what the specification says about this block: the same bytes, the same decoder *)
-  assert (XI : forall g res, X_comp bdec skip d maxb dict O n (sel ++ g) res ->
-               exists c, bdec (spec_hist d dict O) data = Some c /\ E_bcrc bdec skip d maxb dict O data c (zdrop n sel ++ g) res).
-  { intros g res (data' & r1 & c & T1 & D1 & E1). rewrite Tk in T1. inversion T1; subst data' r1. exists c. auto. }
+  assert (XI : forall sk g res, X_comp bdec sk d maxb dict O n (sel ++ g) res ->
+               exists c, bdec (spec_hist d dict O) data = Some c /\ E_bcrc bdec sk d maxb dict O data c (zdrop n sel ++ g) res).
+  { intros sk g res (data' & r1 & c & T1 & D1 & E1). rewrite Tk in T1. inversion T1; subst data' r1. exists c. auto. }
   destruct (negb crcok) eqn:EN.
-  { cbn [fst snd]. intros _. apply (Kc_bad _ _ _ HK). intros Hsk R res E. cbv beta in E.
-    destruct (XI _ _ E) as (c & _ & E1). apply negb_true_iff in EN. exact (C0f EN Hsk _ _ _ E1). }
+  { cbn [fst snd]. intros _. apply (Kc_bad _ _ _ HK). intros R res E. cbv beta in E.
+    destruct (XI _ _ _ E) as (c & _ & E1). apply negb_true_iff in EN. exact (C0f EN _ _ _ E1). }
   apply negb_false_iff in EN. specialize (C0 EN). clear C0f.
   assert (HL0 : linked s0 = negb (f_indep d)) by (eapply binv_linked; exact B0).
   rewrite T0, HL0. fold data.
@@ -711,22 +719,22 @@ Proof.
     rewrite X, N64_eq. reflexivity. }
   rewrite Hh.
   destruct (bdec (spec_hist d dict O) data) as [c|] eqn:ED.
-  2:{ cbn [fst snd]. intros _. apply (Kc_bad _ _ _ HK). intros _ R res E. cbv beta in E.
-      destruct (XI _ _ E) as (c & D1 & _). discriminate D1. }
+  2:{ cbn [fst snd]. intros _. apply (Kc_bad _ _ _ HK). intros R res E. cbv beta in E.
+      destruct (XI _ _ _ E) as (c & D1 & _). discriminate D1. }
   assert (Bd := B0). destruct B0 as (D1 & D2 & D3 & D4 & D5 & D6 & D7). rewrite D2.
   destruct (zlen c <=? maxb) eqn:EL.
-  2:{ cbn [fst snd]. intros _. apply (Kc_bad _ _ _ HK). intros _ R res E. cbv beta in E.
-      destruct (XI _ _ E) as (c' & D1' & E1). inversion D1'; subst c'. apply C0 in E1. destruct E1 as [E1 _].
+  2:{ cbn [fst snd]. intros _. apply (Kc_bad _ _ _ HK). intros R res E. cbv beta in E.
+      destruct (XI _ _ _ E) as (c' & D1' & E1). inversion D1'; subst c'. apply C0 in E1. destruct E1 as [E1 _].
       apply Z.leb_gt in EL. lia. }
   apply Z.leb_le in EL.
   pose proof (upd_decoded_core s0 c) as C. pose proof (upd_decoded_fields s0 c) as (U1 & U2 & U3).
   set (s1 := upd_decoded s0 c) in *.
   destruct C as (C1 & C2 & C3 & C4 & C5 & C6 & C7 & C8 & C9 & C10 & C11).
-  assert (HKc : Kc pn (E_header bdec skip d maxb dict (O ++ c))).
-  { eapply Kc_weaken; [exact HK|]. intros g res. cbv beta. split.
+  assert (HKc : Kc pn (fun sk => E_header bdec sk d maxb dict (O ++ c))).
+  { eapply Kc_weaken; [exact HK|]. intros sk g res. cbv beta. split.
     - intro E. exists data, (zdrop n sel ++ g), c.
       split; [apply Tk|]. split; [exact ED|]. apply C0. split; [exact EL|exact E].
-    - intro E. destruct (XI _ _ E) as (c' & D1' & E1). inversion D1'; subst c'. apply C0 in E1. apply E1. }
+    - intro E. destruct (XI _ _ _ E) as (c' & D1' & E1). inversion D1'; subst c'. apply C0 in E1. apply E1. }
   pose proof (zlen_nonneg c) as Hc0.
   rewrite C3, D2.
   destruct (maxb <=? l_cap l) eqn:EC.
@@ -761,7 +769,7 @@ Lemma c_storeCBlock o d maxb p O l n t :
   d_tmpInTarget (l_s l) = n + crc4 (f_bcrc d) -> 0 <= n <= maxb ->
   pre (d_tmpIn (l_s l)) (d_tmpInSize (l_s l)) = t -> bytes_ok t = true ->
   0 <= d_tmpInSize (l_s l) < d_tmpInTarget (l_s l) -> 0 <= l_cap l ->
-  Kc p (fun g => X_comp bdec skip d maxb dict O n (t ++ g)) -> bytes_ok (l_src l) = true ->
+  Kc p (fun sk g => X_comp bdec sk d maxb dict O n (t ++ g)) -> bytes_ok (l_src l) = true ->
   stepr p O l (do_storeCBlock bdec o l).
 Proof.
   intros Hst B Htg Hn Ht Hbt Hs Hc HK Hb. unfold do_storeCBlock, tmpin_write. ss.
@@ -774,8 +782,8 @@ Proof.
   destruct (bytes_ok_split k _ Hb) as [Hbp Hbr]. fold piece in Hbp.
   destruct (stage_facts _ _ piece k t Ht ltac:(lia) Hpl) as (W1 & W2 & W3). rewrite W1.
   assert (Hbtp : bytes_ok (t ++ piece) = true) by (rewrite bytes_ok_app, Hbt, Hbp; reflexivity).
-  assert (HK' : Kc (p ++ piece) (fun g => X_comp bdec skip d maxb dict O n ((t ++ piece) ++ g))).
-  { eapply Kc_shift; [exact HK|]. intros g res. cbv beta. rewrite <- app_assoc. tauto. }
+  assert (HK' : Kc (p ++ piece) (fun sk g => X_comp bdec sk d maxb dict O n ((t ++ piece) ++ g))).
+  { eapply Kc_shift; [exact HK|]. intros sk g res. cbv beta. rewrite <- app_assoc. tauto. }
   destruct (d_tmpInSize (l_s l) + k <? tg) eqn:E.
   - apply Z.ltb_lt in E. apply stepr_stop_stage with (x := piece).
     + unfold bcsize, FD_BFSize, FD_BHSize.
@@ -796,7 +804,7 @@ Qed.
 Lemma c_getCBlock o d maxb p O l n :
   d_stage (l_s l) = GetCBlock -> binv skip d maxb dict O (l_s l) ->
   d_tmpInTarget (l_s l) = n + crc4 (f_bcrc d) -> 0 <= n <= maxb -> 0 <= l_cap l ->
-  Kc p (X_comp bdec skip d maxb dict O n) -> bytes_ok (l_src l) = true ->
+  Kc p (fun sk => X_comp bdec sk d maxb dict O n) -> bytes_ok (l_src l) = true ->
   stepr p O l (do_getCBlock bdec o l).
 Proof.
   intros Hst B Htg Hn Hc HK Hb. unfold do_getCBlock.
@@ -811,7 +819,7 @@ Proof.
     destruct (bytes_ok_split tg _ Hb) as [Hb1 _].
     eapply (after_stepr p O l (adv l tg) tg); [lia|exact Hb|reflexivity|reflexivity|].
     apply (u_cblock o d maxb _ O _ _ n); [exact B|exact Hb1|exact Htg|exact Hn|rewrite zlen_ztake; lia|exact Hc|].
-    eapply Kc_shift; [exact HK|]. intros g res. cbv beta. tauto.
+    eapply Kc_shift; [exact HK|]. intros sk g res. cbv beta. tauto.
 Qed.
 
 (* ---- the end of the frame ---- *)
@@ -830,15 +838,15 @@ Proof.
 Qed.
 
 (* when the rest of the input does lead to acceptance, the size test follows from the specification *)
-Definition Valid (p rem : list byte) : Prop := exists R res, SpecGoal p (rem ++ R) res.
+Definition Valid (p rem : list byte) : Prop := exists R res, SpecGoalF p (rem ++ R) res.
 Lemma Valid_shift p (src : list byte) n : Valid p src -> Valid (p ++ ztake n src) (zdrop n src).
 Proof.
-  intros (R & res & G). exists R, res. unfold SpecGoal in *.
+  intros (R & res & G). exists R, res. unfold SpecGoalF in *.
   rewrite <- app_assoc, (app_assoc (ztake n src)), ztake_zdrop_app. exact G.
 Qed.
 Definition csize_ok (d : fdesc) (O : list byte) : Prop :=
   match f_csize d with Some n => (n =? 0) || (n =? Z.of_nat (length O)) = true | None => True end.
-Lemma E_suffix_csize d O bs res : E_suffix skip d O bs res -> csize_ok d O.
+Lemma E_suffix_csize sk d O bs res : E_suffix sk d O bs res -> csize_ok d O.
 Proof.
   unfold E_suffix, fin_ok, csize_ok. destruct (f_ccrc d).
   - intros (cb & r1 & _ & _ & H & _). exact H.
@@ -850,10 +858,10 @@ Proof.
   destruct (f_csize d) as [n|]; [|reflexivity]. destruct (n =? 0) eqn:E0; [reflexivity|]. cbn [orb] in H.
   apply Z.eqb_eq in H. fold (zlen O) in H. rewrite H, Z.sub_diag. reflexivity.
 Qed.
-Lemma fin_ok_either d maxb pn O s rem (E : list byte -> list byte * list byte -> Prop) :
+Lemma fin_ok_either d maxb pn O s rem (E : bool -> list byte -> list byte * list byte -> Prop) :
   binv skip d maxb dict O s -> d_remaining s = 0 ->
   zlen O < 18446744073709551616 \/ Valid pn rem ->
-  Kc pn E -> (forall g res, E g res -> csize_ok d O) ->
+  Kc pn E -> (forall g res, E false g res -> csize_ok d O) ->
   forall rest, fin_ok d O rest (O, rest).
 Proof.
   intros B ER [Hacc|(R & res & G)] [_ K2] HE rest; [eapply fin_ok_here; eauto|].
@@ -863,7 +871,7 @@ Qed.
 Lemma u_checkSuffix d maxb pn O l crc :
   binv skip d maxb dict O (l_s l) -> f_ccrc d = true -> d_remaining (l_s l) = 0 ->
   zlen O < 18446744073709551616 \/ Valid pn (l_src l) -> zlen crc = 4 -> bytes_ok crc = true ->
-  Kc pn (fun g => E_suffix skip d O (crc ++ g)) ->
+  Kc pn (fun sk g => E_suffix sk d O (crc ++ g)) ->
   after pn O l (do_checkSuffix l crc).
 Proof.
   intros B EC ER Hacc Hcl Hbc HK. unfold do_checkSuffix, after.
@@ -872,9 +880,9 @@ Proof.
   assert (Hc4 : zlen crc = Z.of_nat 4) by (rewrite Hcl; reflexivity).
   destruct B as (B1 & B2 & B3 & B4 & B5 & B6 & B7). rewrite Hrd, B3.
   destruct (negb skip && negb (le_val crc =? xxh32 0 (d_xxh (l_s l)))) eqn:EK; cbn [fst snd].
-  { intros _. apply (Kc_bad _ _ _ HK). intros Hsk R res E. cbv beta in E. unfold E_suffix in E. rewrite EC in E.
+  { intros _. apply (Kc_bad _ _ _ HK). intros R res E. cbv beta in E. unfold E_suffix in E. rewrite EC in E.
     destruct E as (cb & r1 & T & C & _). destruct (take_full _ _ _ _ _ Hc4 T) as [-> _].
-    rewrite Hsk in *. cbn [negb andb orb] in *. rewrite (B5 EC eq_refl) in EK. rewrite C in EK. discriminate EK. }
+    destruct skip; [discriminate EK|]. cbn [negb andb orb] in *. rewrite (B5 EC eq_refl) in EK. rewrite C in EK. discriminate EK. }
   split; [lia|]. exists []. ss. rewrite !app_nil_r. split; [reflexivity|]. split; [reflexivity|]. left.
   intro g. apply (proj1 HK). unfold E_suffix. rewrite EC. exists crc, g. split.
   - replace 4%nat with (length crc) by (unfold zlen in Hcl; lia). apply take_app.
@@ -887,7 +895,7 @@ Lemma c_storeSuffix d maxb p O l t :
   d_stage (l_s l) = StoreSuffix -> binv skip d maxb dict O (l_s l) -> f_ccrc d = true -> d_remaining (l_s l) = 0 ->
   zlen O < 18446744073709551616 \/ Valid p (l_src l) ->
   pre (d_tmpIn (l_s l)) (d_tmpInSize (l_s l)) = t -> bytes_ok t = true -> 0 <= d_tmpInSize (l_s l) < 4 ->
-  Kc p (fun g => E_suffix skip d O (t ++ g)) -> bytes_ok (l_src l) = true ->
+  Kc p (fun sk g => E_suffix sk d O (t ++ g)) -> bytes_ok (l_src l) = true ->
   stepr p O l (do_storeSuffix l).
 Proof.
   intros Hst B EC ER Hacc Ht Hbt Hs HK Hb. unfold do_storeSuffix, tmpin_write. ss.
@@ -899,8 +907,8 @@ Proof.
   destruct (bytes_ok_split n _ Hb) as [Hbp Hbr]. fold piece in Hbp.
   destruct (stage_facts _ _ piece n t Ht ltac:(lia) Hpl) as (W1 & W2 & W3). rewrite W1.
   assert (Hbtp : bytes_ok (t ++ piece) = true) by (rewrite bytes_ok_app, Hbt, Hbp; reflexivity).
-  assert (HK' : Kc (p ++ piece) (fun g => E_suffix skip d O ((t ++ piece) ++ g))).
-  { eapply Kc_shift; [exact HK|]. intros g res. cbv beta. rewrite <- app_assoc. tauto. }
+  assert (HK' : Kc (p ++ piece) (fun sk g => E_suffix sk d O ((t ++ piece) ++ g))).
+  { eapply Kc_shift; [exact HK|]. intros sk g res. cbv beta. rewrite <- app_assoc. tauto. }
   destruct (d_tmpInSize (l_s l) + n <? 4) eqn:E.
   - apply Z.ltb_lt in E. apply stepr_stop_stage with (x := piece);
       [lia | ss; unfold piece; rewrite ztake_zdrop_app; reflexivity | reflexivity | exact Hbp |].
@@ -918,15 +926,15 @@ Qed.
 Lemma c_getSuffix d maxb p O l :
   d_stage (l_s l) = GetSuffix -> binv skip d maxb dict O (l_s l) ->
   zlen O < 18446744073709551616 \/ Valid p (l_src l) ->
-  Kc p (E_suffix skip d O) -> bytes_ok (l_src l) = true ->
+  Kc p (fun sk => E_suffix sk d O) -> bytes_ok (l_src l) = true ->
   stepr p O l (do_getSuffix l).
 Proof.
   intros Hst B Hacc HK Hb. unfold do_getSuffix.
   pose proof (zlen_nonneg (l_src l)) as Hl.
   pose proof (binv_flags _ _ _ _ _ _ B) as (F1 & F2 & F3).
   destruct (negb (d_remaining (l_s l) =? 0)) eqn:ER.
-  { cbn [fst snd]. intros _. apply (Kc_bad _ _ _ HK). intros _ R res E.
-    pose proof (csize_remaining _ _ _ _ B (E_suffix_csize _ _ _ _ E)) as Z0. rewrite Z0 in ER. discriminate ER. }
+  { cbn [fst snd]. intros _. apply (Kc_bad _ _ _ HK). intros R res E.
+    pose proof (csize_remaining _ _ _ _ B (E_suffix_csize _ _ _ _ _ E)) as Z0. rewrite Z0 in ER. discriminate ER. }
   apply negb_false_iff in ER. apply Z.eqb_eq in ER.
   pose proof (fin_ok_either d maxb p O _ _ _ B ER Hacc HK ltac:(intros g res; apply E_suffix_csize)) as FIN.
   rewrite F2.
@@ -945,7 +953,7 @@ Proof.
     eapply (after_stepr p O l (adv l 4) 4); [lia|exact Hb|reflexivity|reflexivity|]. fold crc.
     apply (u_checkSuffix d maxb); [exact B|exact EC|exact ER| |exact Hcl|exact Hb1|].
     + destruct Hacc as [Hacc|Hv]; [left; exact Hacc|right; apply Valid_shift; exact Hv].
-    + eapply Kc_shift; [exact HK|]. intros g res. cbv beta. tauto.
+    + eapply Kc_shift; [exact HK|]. intros sk g res. cbv beta. tauto.
 Qed.
 
 (* ---- the frame header ---- *)
@@ -987,8 +995,8 @@ Proof.
     destruct (IH _ _ _ _ E ltac:(simpl in Hn; lia)) as (y' & T & ->). exists y'. simpl. rewrite T. auto.
 Qed.
 
-Lemma header_no_error s b hd more res s' r :
-  bytes_ok hd = true -> FD_minFHSize <= zlen hd -> frame_decode bdec skip dict (hd ++ more) = Some res ->
+Lemma header_no_error sk s b hd more res s' r :
+  bytes_ok hd = true -> FD_minFHSize <= zlen hd -> frame_decode bdec sk dict (hd ++ more) = Some res ->
   decodeHeader s b hd = (s', r) -> 0 <= r.
 Proof.
   intros Hb H7 HF ED. unfold FD_minFHSize in H7.
@@ -1077,7 +1085,7 @@ Proof.
       change (take 4 ((m0 :: m1 :: m2 :: m3 :: pre0) ++ g)) with (Some ([m0; m1; m2; m3], pre0 ++ g)). cbv iota beta. rewrite Hm.
       replace (FD_MAGICNUMBER =? MAGIC) with true by (vm_compute; reflexivity). rewrite Hrepl, HB.
       eapply blocks_mono; [exact HF|lia].
-    + unfold SpecGoal, frame_decode.
+    + unfold SpecGoalF, frame_decode.
       change (take 4 ((m0 :: m1 :: m2 :: m3 :: pre0) ++ g)) with (Some ([m0; m1; m2; m3], pre0 ++ g)). cbv iota beta. rewrite Hm.
       replace (FD_MAGICNUMBER =? MAGIC) with true by (vm_compute; reflexivity). rewrite Hrepl, HB.
       intro HF. exists (S (length g)). exact HF.
@@ -1122,9 +1130,9 @@ Proof.
     { destruct Hx as [Hx|(_ & X1 & _)]; [fold tg in Hx; lia|lia]. }
     match goal with |- context [decodeHeader ?sb true ?hh] => destruct (decodeHeader sb true hh) as [s' r] eqn:ED end.
     destruct (r <? 0) eqn:Er.
-    { cbn [fst snd]. intros _ _ R res G. unfold SpecGoal in G. rewrite Hsrc in G.
+    { cbn [fst snd]. intros _ R res G. unfold SpecGoalF in G. rewrite Hsrc in G.
       rewrite <- app_assoc, app_assoc in G.
-      pose proof (header_no_error _ _ _ _ _ _ _ Hbh ltac:(lia) G ED). apply Z.ltb_lt in Er. lia. }
+      pose proof (header_no_error _ _ _ _ _ _ _ _ Hbh ltac:(lia) G ED). apply Z.ltb_lt in Er. lia. }
     apply Z.ltb_ge in Er.
     pose proof (decodeHeader_cases _ _ _ _ _ ED) as (_ & _ & _ & D).
     pose proof (decodeHeader_keeps _ _ _ _ _ ED) as (K1 & K2 & K3). ss.
@@ -1166,8 +1174,8 @@ Proof.
   - apply Z.leb_le in E19. unfold FD_maxFHSize in E19.
     destruct (decodeHeader (l_s l) false (l_src l)) as [s' r] eqn:ED.
     destruct (r <? 0) eqn:Er.
-    { cbn [fst snd]. intros _ _ R res G. unfold SpecGoal in G. cbn [app] in G.
-      pose proof (header_no_error _ _ _ _ _ _ _ Hb ltac:(unfold FD_minFHSize; lia) G ED). apply Z.ltb_lt in Er. lia. }
+    { cbn [fst snd]. intros _ R res G. unfold SpecGoalF in G. cbn [app] in G.
+      pose proof (header_no_error _ _ _ _ _ _ _ _ Hb ltac:(unfold FD_minFHSize; lia) G ED). apply Z.ltb_lt in Er. lia. }
     apply Z.ltb_ge in Er.
     pose proof (decodeHeader_cases _ _ _ _ _ ED) as (_ & _ & _ & D).
     assert (Hr : 0 <= r <= zlen (l_src l)).
@@ -1193,7 +1201,7 @@ Proof.
 Qed.
 
 Lemma c_init d maxb p l :
-  binv skip d maxb dict [] (do_init (l_s l)) -> Kc p (E_header bdec skip d maxb dict []) -> bytes_ok (l_src l) = true ->
+  binv skip d maxb dict [] (do_init (l_s l)) -> Kc p (fun sk => E_header bdec sk d maxb dict []) -> bytes_ok (l_src l) = true ->
   stepr p [] l (do_getBlockHeader (with_s l (do_init (l_s l)))).
 Proof.
   intros B HK Hb. apply stepr_with_s with (s := do_init (l_s l)).
@@ -1302,9 +1310,9 @@ Definition runr (p O : list byte) (l l' : lst) (f : fin) : Prop :=
   end.
 
 Lemma Valid_app p (x rest : list byte) : Valid p (x ++ rest) -> Valid (p ++ x) rest.
-Proof. intros (R & res & G). exists R, res. unfold SpecGoal in *. rewrite <- !app_assoc in *. exact G. Qed.
+Proof. intros (R & res & G). exists R, res. unfold SpecGoalF in *. rewrite <- !app_assoc in *. exact G. Qed.
 Lemma Bad_app p (x rest : list byte) : Bad (p ++ x) rest -> Bad p (x ++ rest).
-Proof. intros H Hsk R res G. apply (H Hsk R res). unfold SpecGoal in *. rewrite <- !app_assoc in *. exact G. Qed.
+Proof. intros H R res G. apply (H R res). unfold SpecGoalF in *. rewrite <- !app_assoc in *. exact G. Qed.
 
 Lemma run_chunk o : forall fuel l l' f p O,
   CInv p O (l_s l) -> wf (l_s l) -> bytes_ok (l_src l) = true -> 0 <= l_cap l ->
@@ -1349,8 +1357,8 @@ Proof.
 Qed.
 
 (* ---- what was produced so far is a prefix of the content of an accepted frame ---- *)
-Lemma blocks_prefix d maxb : forall F acc bs c r,
-  blocks bdec skip F d maxb dict acc bs = Some (c, r) -> exists y, c = acc ++ y.
+Lemma blocks_prefix sk d maxb : forall F acc bs c r,
+  blocks bdec sk F d maxb dict acc bs = Some (c, r) -> exists y, c = acc ++ y.
 Proof.
   induction F as [|F IH]; intros acc bs c r H; [discriminate H|]. cbn [blocks] in H.
   destruct (take 4 bs) as [[szb r0]|]; [|discriminate H].
@@ -1364,7 +1372,7 @@ Proof.
     exists []. rewrite app_nil_r.
     destruct (f_ccrc d).
     + destruct (take 4 r0) as [[cb r1]|]; [|discriminate H].
-      destruct (skip || (le_val cb =? xxh32 0 acc)); [|discriminate H]. eapply G; eauto.
+      destruct (sk || (le_val cb =? xxh32 0 acc)); [|discriminate H]. eapply G; eauto.
     + eapply G; eauto.
   - destruct (maxb <? le_val szb mod 2147483648); [discriminate H|].
     destruct (take (Z.to_nat (le_val szb mod 2147483648)) r0) as [[data r1]|]; [|discriminate H].
@@ -1372,7 +1380,7 @@ Proof.
        (let hist := if f_indep d then dict else lastn 65536 (dict ++ acc) in
         let content := if 2147483648 <=? le_val szb then Some data else bdec hist data in
         match content with
-        | Some c0 => if maxb <? Z.of_nat (length c0) then None else blocks bdec skip F d maxb dict (acc ++ c0) rest
+        | Some c0 => if maxb <? Z.of_nat (length c0) then None else blocks bdec sk F d maxb dict (acc ++ c0) rest
         | None => None end) = Some (c, r) -> exists y, c = acc ++ y).
     { intros rest. cbv zeta.
       destruct (if 2147483648 <=? le_val szb then Some data else bdec (if f_indep d then dict else lastn 65536 (dict ++ acc)) data) as [c0|];
@@ -1381,28 +1389,28 @@ Proof.
       destruct (IH _ _ _ _ X) as [y Hy]. exists (c0 ++ y). rewrite Hy, app_assoc. reflexivity. }
     destruct (f_bcrc d).
     + destruct (take 4 r1) as [[cb r2]|]; [|discriminate H].
-      destruct (skip || (le_val cb =? xxh32 0 data)); [|discriminate H]. eapply G; eauto.
+      destruct (sk || (le_val cb =? xxh32 0 data)); [|discriminate H]. eapply G; eauto.
     + eapply G; eauto.
 Qed.
-Lemma E_header_prefix d maxb acc bs c r : E_header bdec skip d maxb dict acc bs (c, r) -> exists y, c = acc ++ y.
+Lemma E_header_prefix sk d maxb acc bs c r : E_header bdec sk d maxb dict acc bs (c, r) -> exists y, c = acc ++ y.
 Proof. intros (F & H). eapply blocks_prefix; eauto. Qed.
-Lemma E_after_prefix d maxb acc c0 bs c r : E_after bdec skip d maxb dict acc c0 bs (c, r) -> exists y, c = (acc ++ c0) ++ y.
+Lemma E_after_prefix sk d maxb acc c0 bs c r : E_after bdec sk d maxb dict acc c0 bs (c, r) -> exists y, c = (acc ++ c0) ++ y.
 Proof. intros (_ & H). eapply E_header_prefix; eauto. Qed.
-Lemma E_bcrc_prefix d maxb acc data c0 bs c r :
-  E_bcrc bdec skip d maxb dict acc data c0 bs (c, r) -> exists y, c = (acc ++ c0) ++ y.
+Lemma E_bcrc_prefix sk d maxb acc data c0 bs c r :
+  E_bcrc bdec sk d maxb dict acc data c0 bs (c, r) -> exists y, c = (acc ++ c0) ++ y.
 Proof.
   unfold E_bcrc. destruct (f_bcrc d).
   - intros (cb & r2 & _ & _ & H). eapply E_after_prefix; eauto.
   - apply E_after_prefix.
 Qed.
-Lemma E_suffix_eq d O bs c r : E_suffix skip d O bs (c, r) -> c = O.
+Lemma E_suffix_eq sk d O bs c r : E_suffix sk d O bs (c, r) -> c = O.
 Proof.
   unfold E_suffix, fin_ok. destruct (f_ccrc d).
   - intros (cb & r1 & _ & _ & _ & H). inversion H; reflexivity.
   - intros (_ & H). inversion H; reflexivity.
 Qed.
 
-Lemma CInv_prefix p O s g c r : CInv p O s -> SpecGoal p g (c, r) -> exists y, c = O ++ y.
+Lemma CInv_prefix p O s g c r : CInv p O s -> SpecGoalF p g (c, r) -> exists y, c = O ++ y.
 Proof.
   intros C G.
   destruct C as [Hst -> -> Hrem Hh Hsk | Hst -> Hrem Hh Hsk Hp Hbp | d maxb Hst -> B HK | d maxb Hst B HK
@@ -1413,14 +1421,14 @@ Proof.
     try (exists c; reflexivity); apply (proj2 HK) in G.
   - eapply E_header_prefix; eauto.
   - eapply E_header_prefix; eauto.
-  - destruct G as (data2 & r1 & _ & E). destruct (E_bcrc_prefix _ _ _ _ _ _ _ _ E) as [y Hy].
+  - destruct G as (data2 & r1 & _ & E). destruct (E_bcrc_prefix _ _ _ _ _ _ _ _ _ E) as [y Hy].
     exists (data2 ++ y). rewrite Hy, <- !app_assoc. reflexivity.
   - destruct G as (cb & r2 & _ & _ & E). eapply E_after_prefix; eauto.
-  - destruct G as (data & r1 & c0 & _ & _ & E). destruct (E_bcrc_prefix _ _ _ _ _ _ _ _ E) as [y Hy].
+  - destruct G as (data & r1 & c0 & _ & _ & E). destruct (E_bcrc_prefix _ _ _ _ _ _ _ _ _ E) as [y Hy].
     exists (c0 ++ y). rewrite Hy, <- !app_assoc. reflexivity.
-  - destruct G as (data & r1 & c0 & _ & _ & E). destruct (E_bcrc_prefix _ _ _ _ _ _ _ _ E) as [y Hy].
+  - destruct G as (data & r1 & c0 & _ & _ & E). destruct (E_bcrc_prefix _ _ _ _ _ _ _ _ _ E) as [y Hy].
     exists (c0 ++ y). rewrite Hy, <- !app_assoc. reflexivity.
-  - destruct (E_header_prefix _ _ _ _ _ _ G) as [y Hy].
+  - destruct (E_header_prefix _ _ _ _ _ _ _ G) as [y Hy].
     exists (zdrop (d_tmpOutStart s) (d_tmpOut s) ++ y). rewrite Hy, HOe, <- !app_assoc.
     rewrite (app_assoc (ztake _ _)), ztake_zdrop_app. reflexivity.
   - exists []. rewrite app_nil_r. eapply E_suffix_eq; eauto.
@@ -1436,26 +1444,26 @@ Qed.
 Lemma take_zlen n (l a b : list byte) : take n l = Some (a, b) -> zlen l = Z.of_nat n + zlen b.
 Proof. intro T. destruct (take_length _ _ _ _ T) as [_ L]. unfold zlen. lia. Qed.
 
-Lemma need_header d maxb acc bs res : E_header bdec skip d maxb dict acc bs res -> 4 <= zlen bs.
+Lemma need_header sk d maxb acc bs res : E_header bdec sk d maxb dict acc bs res -> 4 <= zlen bs.
 Proof.
   intros (F & H). destruct F as [|F]; [discriminate H|]. cbn [blocks] in H.
   destruct (take 4 bs) as [[szb r]|] eqn:T; [|discriminate H]. rewrite (take_zlen _ _ _ _ T). pose proof (zlen_nonneg r). lia.
 Qed.
-Lemma need_bcrc d maxb acc data c bs res :
-  E_bcrc bdec skip d maxb dict acc data c bs res -> crc4 (f_bcrc d) + 4 <= zlen bs.
+Lemma need_bcrc sk d maxb acc data c bs res :
+  E_bcrc bdec sk d maxb dict acc data c bs res -> crc4 (f_bcrc d) + 4 <= zlen bs.
 Proof.
   unfold E_bcrc, crc4. destruct (f_bcrc d).
   - intros (cb & r2 & T & _ & _ & H). rewrite (take_zlen _ _ _ _ T). apply need_header in H. lia.
   - intros (_ & H). apply need_header in H. lia.
 Qed.
-Lemma need_comp d maxb acc n bs res :
-  0 <= n -> X_comp bdec skip d maxb dict acc n bs res -> n + crc4 (f_bcrc d) + 4 <= zlen bs.
+Lemma need_comp sk d maxb acc n bs res :
+  0 <= n -> X_comp bdec sk d maxb dict acc n bs res -> n + crc4 (f_bcrc d) + 4 <= zlen bs.
 Proof. intros Hn (data & r1 & c & T & _ & E). rewrite (take_zlen _ _ _ _ T). apply need_bcrc in E. lia. Qed.
-Lemma need_EC d maxb acc0 data1 m g res : 0 <= m -> E_C d maxb acc0 data1 m g res -> m + crc4 (f_bcrc d) + 4 <= zlen g.
+Lemma need_EC sk d maxb acc0 data1 m g res : 0 <= m -> E_C sk d maxb acc0 data1 m g res -> m + crc4 (f_bcrc d) + 4 <= zlen g.
 Proof. intros Hm (data2 & r1 & T & E). rewrite (take_zlen _ _ _ _ T). apply need_bcrc in E. lia. Qed.
-Lemma need_EB d maxb acc0 data t g res : E_B d maxb acc0 data t g res -> 8 <= zlen (t ++ g).
+Lemma need_EB sk d maxb acc0 data t g res : E_B sk d maxb acc0 data t g res -> 8 <= zlen (t ++ g).
 Proof. intros (cb & r2 & T & _ & _ & H). rewrite (take_zlen _ _ _ _ T). apply need_header in H. lia. Qed.
-Lemma need_suffix d O bs res : f_ccrc d = true -> E_suffix skip d O bs res -> 4 <= zlen bs.
+Lemma need_suffix sk d O bs res : f_ccrc d = true -> E_suffix sk d O bs res -> 4 <= zlen bs.
 Proof.
   intros EC. unfold E_suffix. rewrite EC. intros (cb & r1 & T & _). rewrite (take_zlen _ _ _ _ T).
   pose proof (zlen_nonneg r1). lia.
@@ -1468,7 +1476,7 @@ Proof.
 Qed.
 
 (* an accepted frame begins with the LZ4 magic number and contains its whole header *)
-Lemma accepted_magic p res : frame_decode bdec skip dict p = Some res -> rd32 p = FD_MAGICNUMBER.
+Lemma accepted_magic sk p res : frame_decode bdec sk dict p = Some res -> rd32 p = FD_MAGICNUMBER.
 Proof.
   unfold frame_decode. intro HV.
   destruct (take 4 p) as [[mg r0]|] eqn:T; [|discriminate HV].
@@ -1477,8 +1485,8 @@ Proof.
   unfold rd32. rewrite Hd. unfold ztake. rewrite firstn_app. replace (Z.to_nat 4 - length mg)%nat with 0%nat by lia.
   rewrite firstn_O, app_nil_r, firstn_all2 by lia. rewrite EM. reflexivity.
 Qed.
-Lemma frame_needs_header p res :
-  frame_decode bdec skip dict p = Some res ->
+Lemma frame_needs_header sk p res :
+  frame_decode bdec sk dict p = Some res ->
   exists flg bd i bc csz cc did id,
     nth_error p 4 = Some flg /\ nth_error p 5 = Some bd /\
     spec_flags flg bd = Some (i, bc, csz, cc, did, id) /\
@@ -1501,13 +1509,13 @@ Proof.
   unfold zlen. simpl length in *. destruct (csz =? 1); destruct (did =? 1); lia.
 Qed.
 
-Lemma hdr_incomplete s p res :
+Lemma hdr_incomplete sk s p res :
   d_stage s = StoreFrameHeader -> wf s -> pre (d_header s) (d_tmpInSize s) = p -> bytes_ok p = true ->
-  frame_decode bdec skip dict p = Some res -> False.
+  frame_decode bdec sk dict p = Some res -> False.
 Proof.
   intros Hst (_ & _ & Hi) Hp Hb HF. unfold stage_inv in Hi. rewrite Hst in Hi. destruct Hi as (I1 & I2 & Hx).
   assert (Hlen : zlen p = d_tmpInSize s) by (rewrite <- Hp; apply pre_length; lia).
-  destruct (frame_needs_header _ _ HF) as (flg & bd & i & bc & csz & cc & did & id & N4 & N5 & SF & L).
+  destruct (frame_needs_header _ _ _ HF) as (flg & bd & i & bc & csz & cc & did & id & N4 & N5 & SF & L).
   destruct Hx as [Hx|(X0 & X1 & X2 & FLG & bm & bc' & cs & cc' & di & N4' & EF & FS)].
   - unfold FD_minFHSize in Hx. destruct (csz =? 1); destruct (did =? 1); lia.
   - assert (Hph : p = d_header s) by (rewrite <- Hp; apply pre_full; exact X0).
@@ -1523,11 +1531,11 @@ Qed.
 (* the input is exhausted and what was consumed is a whole accepted frame: only the end of the
    frame (no content checksum) can be left to do *)
 Lemma empty_input p O s res :
-  CInv p O s -> wf s -> SpecGoal p [] res ->
+  CInv p O s -> wf s -> SpecGoalF p [] res ->
   exists d maxb, d_stage s = GetSuffix /\ binv skip d maxb dict O s /\ f_ccrc d = false /\ csize_ok d O.
 Proof.
   intros C Hwf G'. assert (Hwf' := Hwf). destruct Hwf' as (_ & _ & Hi). unfold stage_inv in Hi.
-  assert (G : frame_decode bdec skip dict p = Some res) by (unfold SpecGoal in G'; rewrite app_nil_r in G'; exact G').
+  assert (G : frame_decode bdec false dict p = Some res) by (unfold SpecGoalF in G'; rewrite app_nil_r in G'; exact G').
   assert (Z0 : zlen (@nil byte) = 0) by reflexivity.
   assert (Hcr : forall b, 0 <= crc4 b) by (intro b; unfold crc4; destruct b; lia).
   destruct C as [Hst -> -> Hrem Hh Hsk | Hst -> Hrem Hh Hsk Hp Hbp | d maxb Hst -> B HK | d maxb Hst B HK
@@ -1547,10 +1555,10 @@ Proof.
   - exfalso. apply need_comp in G'; [|lia]. rewrite app_nil_r, <- Ht, pre_length in G' by lia. lia.
   - exfalso. apply need_header in G'. lia.
   - exists d, maxb. split; [exact Hst|]. split; [exact B|]. split.
-    + destruct (f_ccrc d) eqn:EC; [|reflexivity]. exfalso. apply (need_suffix _ _ _ _ EC) in G'. lia.
+    + destruct (f_ccrc d) eqn:EC; [|reflexivity]. exfalso. apply (need_suffix _ _ _ _ _ EC) in G'. lia.
     + eapply E_suffix_csize; eauto.
-  - exfalso. apply (need_suffix _ _ _ _ EC) in G'. rewrite app_nil_r, <- Ht, pre_length in G' by lia. lia.
-  - exfalso. rewrite (accepted_magic _ _ G) in Hmg. exact (magic_not_skippable Hmg).
+  - exfalso. apply (need_suffix _ _ _ _ _ EC) in G'. rewrite app_nil_r, <- Ht, pre_length in G' by lia. lia.
+  - exfalso. rewrite (accepted_magic _ _ _ G) in Hmg. exact (magic_not_skippable Hmg).
 Qed.
 
 (* ---- one call of LZ4F_decompress ---- *)
@@ -1636,7 +1644,7 @@ Qed.
 
 (* no input left and what was consumed is a whole accepted frame: the call ends the frame *)
 Lemma call_empty s cap o p O res :
-  o_skip o = skip -> wf s -> BInv p O s -> 0 <= cap -> SpecGoal p [] res ->
+  o_skip o = skip -> wf s -> BInv p O s -> 0 <= cap -> SpecGoalF p [] res ->
   r_ret (snd (decompress bdec s [] cap o)) = 0.
 Proof.
   intros Hsk Hwf HB Hc G. unfold decompress. rewrite Hsk.
@@ -1670,6 +1678,45 @@ Fixpoint drive (bdec : list byte -> list byte -> option (list byte)) (o : dopts)
       else drive bdec o f s' (zdrop (r_consumed r) data) ns' caps' (acc ++ r_out r) (pos + r_consumed r)
   | _, _, _ => VMore
   end.
+
+(* a frame accepted with every checksum verified is accepted, with the same result, when checksums are skipped *)
+Lemma blocks_skip_mono bdec sk d maxb dict : forall F acc bs res,
+  blocks bdec false F d maxb dict acc bs = Some res -> blocks bdec sk F d maxb dict acc bs = Some res.
+Proof.
+  induction F as [|F IH]; intros acc bs res H; [discriminate H|]. cbn [blocks] in *.
+  destruct (take 4 bs) as [[szb r0]|]; [|discriminate H].
+  destruct (le_val szb =? 0).
+  - destruct (f_ccrc d); [|exact H].
+    destruct (take 4 r0) as [[cb r1]|]; [|discriminate H]. cbn [orb] in H.
+    destruct (le_val cb =? xxh32 0 acc); [|discriminate H]. rewrite orb_true_r. exact H.
+  - destruct (maxb <? le_val szb mod 2147483648); [discriminate H|].
+    destruct (take (Z.to_nat (le_val szb mod 2147483648)) r0) as [[data r1]|]; [|discriminate H].
+    assert (G : forall rest,
+       (let hist := if f_indep d then dict else lastn 65536 (dict ++ acc) in
+        let content := if 2147483648 <=? le_val szb then Some data else bdec hist data in
+        match content with
+        | Some c0 => if maxb <? Z.of_nat (length c0) then None else blocks bdec false F d maxb dict (acc ++ c0) rest
+        | None => None end) = Some res ->
+       (let hist := if f_indep d then dict else lastn 65536 (dict ++ acc) in
+        let content := if 2147483648 <=? le_val szb then Some data else bdec hist data in
+        match content with
+        | Some c0 => if maxb <? Z.of_nat (length c0) then None else blocks bdec sk F d maxb dict (acc ++ c0) rest
+        | None => None end) = Some res).
+    { intros rest. cbv zeta.
+      destruct (if 2147483648 <=? le_val szb then Some data else bdec (if f_indep d then dict else lastn 65536 (dict ++ acc)) data) as [c0|];
+        [|discriminate].
+      destruct (maxb <? Z.of_nat (length c0)); [discriminate|]. apply IH. }
+    destruct (f_bcrc d); [|apply G; exact H].
+    destruct (take 4 r1) as [[cb r2]|]; [|discriminate H]. cbn [orb] in H.
+    destruct (le_val cb =? xxh32 0 data); [|discriminate H]. rewrite orb_true_r. apply G. exact H.
+Qed.
+Lemma frame_decode_skip_mono bdec sk dict bs res :
+  frame_decode bdec false dict bs = Some res -> frame_decode bdec sk dict bs = Some res.
+Proof.
+  unfold frame_decode. destruct (take 4 bs) as [[mg r]|]; [|discriminate].
+  destruct (le_val mg =? MAGIC); [|discriminate]. destruct (parse_desc r) as [[d r1]|]; [|discriminate].
+  destruct (bsid_size (f_bsid d)); [|discriminate]. apply blocks_skip_mono.
+Qed.
 
 Section Drive.
 Variable bdec : list byte -> list byte -> option (list byte).
@@ -1732,9 +1779,8 @@ Qed.
 
 (* on a valid frame (all checksums right) no call fails, whatever the chunking *)
 Lemma drive_valid : forall k s data ns caps acc pos p O res,
-  o_skip o = false ->
   wf s -> BInv bdec (o_skip o) dict p O s -> bytes_ok data = true -> Forall (fun c => 0 <= c) caps ->
-  frame_decode bdec (o_skip o) dict (p ++ data) = Some res ->
+  frame_decode bdec false dict (p ++ data) = Some res ->
   match drive bdec o k s data ns caps acc pos with
   | VError => False
   | VComplete content consumed =>
@@ -1743,19 +1789,19 @@ Lemma drive_valid : forall k s data ns caps acc pos p O res,
   | VMore => True
   end.
 Proof.
-  induction k as [|k IH]; intros s data ns caps acc pos p O res Hsk Hwf HB Hb Hcaps HV; [exact I|].
+  induction k as [|k IH]; intros s data ns caps acc pos p O res Hwf HB Hb Hcaps HV; [exact I|].
   destruct ns as [|n ns]; [exact I|]. destruct caps as [|cap caps]; [exact I|].
   cbn [drive]. inversion Hcaps as [|c0 cs0 Hc Hcaps']; subst.
   destruct (bytes_ok_split n _ Hb) as [Hb1 Hb2].
   pose proof (call_chunk bdec (o_skip o) dict s (ztake n data) cap o p O eq_refl Hwf HB Hb1 Hc) as CC.
   destruct (decompress bdec s (ztake n data) cap o) as [s' r]. cbn [fst snd] in CC.
-  assert (Hval : Valid bdec (o_skip o) dict p (ztake n data)).
-  { exists (zdrop n data), res. unfold SpecGoal. rewrite ztake_zdrop_app. exact HV. }
+  assert (Hval : Valid bdec dict p (ztake n data)).
+  { exists (zdrop n data), res. unfold SpecGoalF. rewrite ztake_zdrop_app. exact HV. }
   destruct (CC (or_intror Hval)) as [CCn CCp]. clear CC.
   assert (Hdata : forall x rest0, ztake n data = x ++ rest0 -> data = x ++ rest0 ++ zdrop n data).
   { intros x rest0 E. rewrite app_assoc, <- E. symmetry. apply ztake_zdrop_app. }
   destruct (r_ret r <? 0) eqn:Eneg.
-  { apply Z.ltb_lt in Eneg. destruct Hval as (R & res' & G). exact (CCn Eneg Hsk R res' G). }
+  { apply Z.ltb_lt in Eneg. destruct Hval as (R & res' & G). exact (CCn Eneg R res' G). }
   apply Z.ltb_ge in Eneg.
   destruct (CCp Eneg) as (x & rest0 & C1 & C2 & C3 & C4).
   pose proof (Hdata _ _ C1) as Hd.
@@ -1767,9 +1813,9 @@ Proof.
     rewrite Hdrop.
     assert (Hb' : bytes_ok (rest0 ++ zdrop n data) = true).
     { rewrite Hd, bytes_ok_app in Hb. apply andb_prop in Hb. apply Hb. }
-    assert (HV' : frame_decode bdec (o_skip o) dict ((p ++ x) ++ rest0 ++ zdrop n data) = Some res).
+    assert (HV' : frame_decode bdec false dict ((p ++ x) ++ rest0 ++ zdrop n data) = Some res).
     { rewrite <- app_assoc, <- Hd. exact HV. }
-    pose proof (IH s' _ ns caps (acc ++ r_out r) (pos + r_consumed r) (p ++ x) (O ++ r_out r) res Hsk C3 C4 Hb' Hcaps' HV') as R.
+    pose proof (IH s' _ ns caps (acc ++ r_out r) (pos + r_consumed r) (p ++ x) (O ++ r_out r) res C3 C4 Hb' Hcaps' HV') as R.
     destruct (drive bdec o k s' (rest0 ++ zdrop n data) ns caps (acc ++ r_out r) (pos + r_consumed r)) as [content consumed| |]; auto.
     destruct R as (x2 & y2 & rest2 & D1 & D2 & D3 & D4).
     exists (x ++ x2), (r_out r ++ y2), rest2.
@@ -1777,12 +1823,11 @@ Proof.
     split; [rewrite D3, C2, zlen_app; lia|]. rewrite !app_assoc. exact D4.
 Qed.
 
-(* Completeness under chunking (all checksums verified: skipChecksums off).  From a context at
-   the start of a frame, on an input that the specification accepts, no call fails whatever the
-   pieces and the capacities; and when the calls come to an end (enough pieces were offered),
+(* Completeness under chunking.  From a context at the start of a frame, on an input that the
+   specification accepts with every checksum verified, no call fails whatever the pieces, the
+   capacities and skipChecksums; and when the calls come to an end (enough pieces were offered),
    the verdict is the specification's: the specified content, the length of the frame. *)
 Theorem chunked_complete : forall k s data ns caps content rest,
-  o_skip o = false ->
   wf s -> d_stage s = GetFrameHeader -> d_remaining s = 0 -> d_hist s = dict -> d_skip s = false ->
   bytes_ok data = true -> Forall (fun c => 0 <= c) caps ->
   frame_decode bdec false dict data = Some (content, rest) ->
@@ -1790,40 +1835,34 @@ Theorem chunked_complete : forall k s data ns caps content rest,
   (drive bdec o k s data ns caps [] 0 <> VMore ->
    drive bdec o k s data ns caps [] 0 = VComplete content (zlen data - zlen rest)).
 Proof.
-  intros k s data ns caps content rest Hsk Hwf H1 H2 H3 H4 Hb Hcaps HV.
+  intros k s data ns caps content rest Hwf H1 H2 H3 H4 Hb Hcaps HV.
   assert (HB : BInv bdec (o_skip o) dict [] [] s) by (right; unfold at_start; auto 10).
-  assert (HV' : frame_decode bdec (o_skip o) dict ([] ++ data) = Some (content, rest)) by (rewrite Hsk; exact HV).
-  pose proof (drive_valid k s data ns caps [] 0 [] [] _ Hsk Hwf HB Hb Hcaps HV') as D.
+  pose proof (drive_valid k s data ns caps [] 0 [] [] _ Hwf HB Hb Hcaps HV) as D.
   destruct (drive bdec o k s data ns caps [] 0) as [c n| |]; [|contradiction|].
   2:{ split; [discriminate|]. intro X. contradiction. }
   split; [discriminate|]. intros _.
   destruct D as (x & y & rest' & D1 & D2 & D3 & D4). cbn [app] in *. subst c.
   destruct D4 as [D|(D5 & D6 & D7)].
-  - specialize (D rest'). unfold SpecGoal in D. rewrite <- D1, Hsk, HV in D. inversion D; subst.
+  - specialize (D rest'). unfold SpecGoal in D. rewrite <- D1 in D.
+    rewrite (frame_decode_skip_mono _ (o_skip o) _ _ _ HV) in D. inversion D; subst.
     f_equal. rewrite zlen_app. lia.
   - exfalso. (* an accepted frame does not begin with a skippable magic number *)
-    unfold frame_decode in HV.
-    destruct (take 4 data) as [[mg r0]|] eqn:T; [|discriminate HV].
-    destruct (le_val mg =? MAGIC) eqn:EM; [|discriminate HV]. apply Z.eqb_eq in EM.
-    destruct (take_length _ _ _ _ T) as [L4 _]. pose proof (take_app_split _ _ _ _ T) as Hd.
-    assert (Hrd : rd32 data = FD_MAGICNUMBER).
-    { unfold rd32. rewrite Hd. unfold ztake. rewrite firstn_app. replace (Z.to_nat 4 - length mg)%nat with 0%nat by lia.
-      rewrite firstn_O, app_nil_r, firstn_all2 by lia. rewrite EM. reflexivity. }
+    pose proof (accepted_magic _ _ _ _ _ HV) as Hrd.
     rewrite D1 in Hrd. rewrite rd32_app in Hrd by exact D6. rewrite Hrd in D7. exact (magic_not_skippable D7).
 Qed.
 
 (* ... and the calls do come to an end: every call that does not end the frame consumes or
    produces at least one byte (no livelock), so |input| + |content| + 1 pieces always suffice *)
 Lemma drive_terminates : forall k s data ns caps acc pos p O content rest,
-  o_skip o = false -> o_dstnull o = false ->
+  o_dstnull o = false ->
   wf s -> BInv bdec (o_skip o) dict p O s -> bytes_ok data = true ->
   Forall (fun n => 1 <= n) ns -> Forall (fun c => 1 <= c) caps ->
-  frame_decode bdec (o_skip o) dict (p ++ data) = Some (content, rest) ->
+  frame_decode bdec false dict (p ++ data) = Some (content, rest) ->
   (k <= length ns)%nat -> (k <= length caps)%nat ->
   zlen data + (zlen content - zlen O) < Z.of_nat k ->
   drive bdec o k s data ns caps acc pos <> VMore.
 Proof.
-  induction k as [|k IH]; intros s data ns caps acc pos p O content rest Hsk Hnull Hwf HB Hb Hns Hcaps HV Lns Lcaps HM.
+  induction k as [|k IH]; intros s data ns caps acc pos p O content rest Hnull Hwf HB Hb Hns Hcaps HV Lns Lcaps HM.
   - exfalso. pose proof (zlen_nonneg data).
     assert (zlen O <= zlen content); [|lia].
     destruct HB as [C|(_ & -> & _)]; [|apply zlen_nonneg].
@@ -1832,14 +1871,14 @@ Proof.
     cbn [drive]. inversion Hcaps as [|c0 cs0 Hc1 Hcaps']; subst. inversion Hns as [|n0 ns0 Hn1 Hns']; subst.
     assert (Hc : 0 <= cap) by lia.
     destruct (bytes_ok_split n _ Hb) as [Hb1 Hb2].
-    assert (Hval : Valid bdec (o_skip o) dict p (ztake n data)).
-    { exists (zdrop n data), (content, rest). unfold SpecGoal. rewrite ztake_zdrop_app. exact HV. }
+    assert (Hval : Valid bdec dict p (ztake n data)).
+    { exists (zdrop n data), (content, rest). unfold SpecGoalF. rewrite ztake_zdrop_app. exact HV. }
     pose proof (zlen_nonneg data) as Hd0.
     destruct (Z.eq_dec (zlen data) 0) as [Z0|Z0].
     { (* no input left *)
       assert (data = []) by (apply zlen0_nil; exact Z0). subst data.
       assert (Hz : ztake n [] = []) by (unfold ztake; apply firstn_nil). rewrite Hz.
-      assert (G : SpecGoal bdec (o_skip o) dict p [] (content, rest)) by exact HV.
+      assert (G : SpecGoalF bdec dict p [] (content, rest)) by exact HV.
       pose proof (call_empty bdec (o_skip o) dict s cap o p O _ eq_refl Hwf HB Hc G) as R0.
       destruct (decompress bdec s [] cap o) as [s' r]. cbn [snd] in R0. rewrite R0. cbn. discriminate. }
     assert (Hsrc1 : 1 <= zlen (ztake n data)).
@@ -1851,7 +1890,7 @@ Proof.
     destruct (decompress bdec s (ztake n data) cap o) as [s' r]. cbn [fst snd] in CC, PROG, PO.
     destruct (CC (or_intror Hval)) as [CCn CCp]. clear CC.
     destruct (r_ret r <? 0) eqn:Eneg.
-    { exfalso. apply Z.ltb_lt in Eneg. destruct Hval as (R & res' & G). exact (CCn Eneg Hsk R res' G). }
+    { exfalso. apply Z.ltb_lt in Eneg. destruct Hval as (R & res' & G). exact (CCn Eneg R res' G). }
     apply Z.ltb_ge in Eneg.
     destruct (r_ret r =? 0) eqn:E0; [discriminate|]. apply Z.eqb_neq in E0.
     destruct (CCp Eneg) as (x & rest0 & C1 & C2 & C3 & C4).
@@ -1863,9 +1902,9 @@ Proof.
     rewrite Hdrop.
     assert (Hb' : bytes_ok (rest0 ++ zdrop n data) = true).
     { rewrite Hd, bytes_ok_app in Hb. apply andb_prop in Hb. apply Hb. }
-    assert (HV' : frame_decode bdec (o_skip o) dict ((p ++ x) ++ rest0 ++ zdrop n data) = Some (content, rest)).
+    assert (HV' : frame_decode bdec false dict ((p ++ x) ++ rest0 ++ zdrop n data) = Some (content, rest)).
     { rewrite <- app_assoc, <- Hd. exact HV. }
-    apply (IH s' _ ns caps _ _ (p ++ x) (O ++ r_out r) content rest Hsk Hnull C3 C4 Hb' Hns' Hcaps' HV');
+    apply (IH s' _ ns caps _ _ (p ++ x) (O ++ r_out r) content rest Hnull C3 C4 Hb' Hns' Hcaps' HV');
       [simpl in Lns; lia | simpl in Lcaps; lia |].
     assert (Hlx : zlen data = zlen x + zlen (rest0 ++ zdrop n data)) by (rewrite Hd at 1; apply zlen_app).
     rewrite (zlen_app O). pose proof (zlen_nonneg x). pose proof (zlen_nonneg (r_out r)).
@@ -1897,11 +1936,11 @@ Proof.
     + rewrite D3, D1, zlen_app. pose proof (zlen_nonneg rest). lia.
     + rewrite D1, rd32_app by exact D6. exact D7.
 Qed.
-(* Chunking independence (skipChecksums off, non-NULL destination): a valid frame offered in ANY
+(* Chunking independence (non-NULL destination): a valid frame offered in ANY
    pieces of >= 1 byte, with ANY capacities >= 1, is decoded to the specified content, and
    |input| + |content| + 1 calls suffice. *)
 Theorem chunked_reaches : forall s data ns caps content rest,
-  o_skip o = false -> o_dstnull o = false ->
+  o_dstnull o = false ->
   wf s -> d_stage s = GetFrameHeader -> d_remaining s = 0 -> d_hist s = dict -> d_skip s = false ->
   bytes_ok data = true -> Forall (fun n => 1 <= n) ns -> Forall (fun c => 1 <= c) caps ->
   frame_decode bdec false dict data = Some (content, rest) ->
@@ -1909,29 +1948,28 @@ Theorem chunked_reaches : forall s data ns caps content rest,
   (K <= length ns)%nat -> (K <= length caps)%nat ->
   drive bdec o K s data ns caps [] 0 = VComplete content (zlen data - zlen rest).
 Proof.
-  intros s data ns caps content rest Hsk Hnull Hwf H1 H2 H3 H4 Hb Hns Hcaps HV K Lns Lcaps.
+  intros s data ns caps content rest Hnull Hwf H1 H2 H3 H4 Hb Hns Hcaps HV K Lns Lcaps.
   assert (Hcaps0 : Forall (fun c => 0 <= c) caps) by (eapply Forall_impl; [|exact Hcaps]; cbv beta; intros; lia).
-  destruct (chunked_complete K s data ns caps content rest Hsk Hwf H1 H2 H3 H4 Hb Hcaps0 HV) as [_ HC].
+  destruct (chunked_complete K s data ns caps content rest Hwf H1 H2 H3 H4 Hb Hcaps0 HV) as [_ HC].
   apply HC.
   assert (HB : BInv bdec (o_skip o) dict [] [] s) by (right; unfold at_start; auto 10).
-  apply (drive_terminates K s data ns caps [] 0 [] [] content rest Hsk Hnull Hwf HB Hb Hns Hcaps); auto.
-  - rewrite Hsk. exact HV.
+  apply (drive_terminates K s data ns caps [] 0 [] [] content rest Hnull Hwf HB Hb Hns Hcaps); auto.
   - pose proof (zlen_nonneg data). pose proof (zlen_nonneg content). unfold K. change (zlen []) with 0. lia.
 Qed.
 End Drive.
 
-(* the statement Properties_C08.C08_chunking_independent_full_statement, for skipChecksums off *)
-Theorem chunked_independent_noskip : forall bdec stable dstnull data ns caps content rest,
+(* the statement Properties_C08.C08_chunking_independent_full_statement *)
+Theorem chunked_independent : forall bdec skip data ns caps content rest,
   bytes_ok data = true ->
   Forall (fun n => 1 <= n) ns -> Forall (fun c => 1 <= c) caps ->
   frame_decode bdec false [] data = Some (content, rest) ->
-  (exists k, drive bdec (mkO stable false dstnull) k dctx_init data ns caps [] 0 <> VMore) ->
-  exists k, drive bdec (mkO stable false dstnull) k dctx_init data ns caps [] 0
+  (exists k, drive bdec (mkO false skip false) k dctx_init data ns caps [] 0 <> VMore) ->
+  exists k, drive bdec (mkO false skip false) k dctx_init data ns caps [] 0
             = VComplete content (zlen data - zlen rest).
 Proof.
-  intros bdec stable dstnull data ns caps content rest Hb Hns Hcaps HV [k Hk]. exists k.
+  intros bdec skip data ns caps content rest Hb Hns Hcaps HV [k Hk]. exists k.
   assert (Hcaps0 : Forall (fun c => 0 <= c) caps) by (eapply Forall_impl; [|exact Hcaps]; cbv beta; intros; lia).
-  destruct (chunked_complete bdec (mkO stable false dstnull) [] k dctx_init data ns caps content rest
-              eq_refl wf_init eq_refl eq_refl eq_refl eq_refl Hb Hcaps0 HV) as [_ HC].
+  destruct (chunked_complete bdec (mkO false skip false) [] k dctx_init data ns caps content rest
+              wf_init eq_refl eq_refl eq_refl eq_refl Hb Hcaps0 HV) as [_ HC].
   exact (HC Hk).
 Qed.
